@@ -7,6 +7,7 @@ import (
 	"go/types"
 	"regexp"
 	"sort"
+	"strconv"
 	"strings"
 
 	"golang.org/x/tools/go/ssa"
@@ -1757,6 +1758,15 @@ func (e *Engine) binopVals(st *State, op token.Token, a, b Val, at, bt, rt types
 			return App(SInt, p, x, y)
 		case token.AND, token.OR, token.XOR, token.SHR, token.AND_NOT:
 			p := e.namedFun("bitop_"+sanitize(op.String()), []Sort{SInt, SInt}, SInt)
+			if op == token.AND {
+				// x & 2^k is exact for a non-negative x: the k-th binary digit of x, times 2^k
+				for _, pr := range [][2]T{{x, y}, {y, x}} {
+					if k, err := strconv.ParseInt(pr[1].S, 10, 64); err == nil && k > 0 && k&(k-1) == 0 {
+						digit := App(SInt, "mod", App(SInt, "div", pr[0], IntLit(k)), IntLit(2))
+						return Ite(App(SBool, ">=", pr[0], IntLit(0)), Ite(Eq(digit, IntLit(1)), IntLit(k), IntLit(0)), App(SInt, p, x, y))
+					}
+				}
+			}
 			return App(SInt, p, x, y)
 		}
 	case SBool:
